@@ -191,9 +191,45 @@ func reorgEventsFull(path string) ([]uint64, []common.Hash) {
 	return out, hs
 }
 
+// c06Diag: which delivered blocks are off the canonical chain, and whether the detector still tracks them.
+func c06Diag(storePath, rdPath string, chain *fakechain.Chain) string {
+	out := ""
+	d := rawDB(rdPath)
+	defer d.Close()
+	del := deliveredBlocks(storePath)
+	chain.Lock()
+	defer chain.Unlock()
+	for n := uint64(1); n <= chain.TipLocked()+20; n++ {
+		h, ok := del[n]
+		if !ok {
+			continue
+		}
+		canon := "none"
+		if n <= chain.TipLocked() {
+			if h == chain.HeaderLocked(n).Hash() {
+				continue
+			}
+			canon = chain.HeaderLocked(n).Hash().Hex()[:10]
+		}
+		tr := []string{}
+		if rows, err := d.Query("SELECT hash FROM tracked_block WHERE num = ?", n); err == nil {
+			for rows.Next() {
+				var x string
+				_ = rows.Scan(&x)
+				if len(x) > 10 {
+					x = x[:10]
+				}
+				tr = append(tr, x)
+			}
+			rows.Close()
+		}
+		out += fmt.Sprintf("\n  delivered block %d has hash %s, canonical %s, tracked_block rows for it: %v", n, h.Hex()[:10], canon, tr)
+	}
+	return out
+}
+
 type c06Result struct {
 	abandoned  int
-	sig        string
 	verdict    string
 	inconcl    string
 	nontrivial bool
@@ -443,7 +479,11 @@ func c06Run(c c06Case) (res c06Result) {
 			// (2) the node must be rewound at or before the first replaced delivered block
 			// wait until the node has had the chance to notice (fresh polls and detector sweeps after the fork) and is idle
 			// again; a missing rewind is only reported if it stays missing for 3 s of idleness
+			// a detector sweep that straddles the fork sees old headers for the first blocks and new ones for the rest, and
+			// reports the rest first; what matters is that the node ends up rewound to at or before the first replaced
+			// block. A missing (or too shallow) rewind is only reported if it stays so for 3 s of idleness.
 			var evs []uint64
+			lowest := uint64(0)
 			missingSince := time.Time{}
 			dl := time.Now().Add(90 * time.Second)
 			for {
@@ -457,8 +497,17 @@ func c06Run(c c06Case) (res c06Result) {
 					return
 				}
 				evs = reorgEvents(rdPath)
+				lowest = 0
 				if len(evs) > eventsBefore {
-					break
+					lowest = evs[eventsBefore]
+					for _, e := range evs[eventsBefore:] {
+						if e < lowest {
+							lowest = e
+						}
+					}
+					if lowest <= firstReplaced {
+						break
+					}
 				}
 				if missingSince.IsZero() {
 					missingSince = time.Now()
@@ -468,28 +517,11 @@ func c06Run(c c06Case) (res c06Result) {
 				}
 			}
 			if len(evs) <= eventsBefore {
-				res.verdict = fmt.Sprintf("fork #%d replaced delivered block %d; the node stayed idle for 3 s of polls and detector sweeps but no rewind was recorded", i+1, firstReplaced)
-				res.sig = c06SigRace
+				res.verdict = fmt.Sprintf("fork #%d replaced delivered block %d; the node stayed idle for 3 s of polls and detector sweeps but no rewind was recorded", i+1, firstReplaced) + c06Diag(storePath, rdPath, chain)
 				return
 			}
-			// a detector sweep that straddles the fork sees old headers for the first blocks and new ones for the rest, and
-			// reports the rest first; what matters is that the node ends up rewound to at or before the first replaced block
-			lowest := evs[eventsBefore]
-			for _, e := range evs[eventsBefore:] {
-				if e < lowest {
-					lowest = e
-				}
-			}
 			if lowest > firstReplaced {
-				time.Sleep(50 * time.Millisecond)
-				for _, e := range reorgEvents(rdPath)[eventsBefore:] {
-					if e < lowest {
-						lowest = e
-					}
-				}
-			}
-			if lowest > firstReplaced {
-				res.verdict = fmt.Sprintf("fork #%d replaced delivered block %d but the node was rewound to block %d only (rewinds since the fork: %v)", i+1, firstReplaced, lowest, evs[eventsBefore:])
+				res.verdict = fmt.Sprintf("fork #%d replaced delivered block %d but the node was rewound to block %d only (rewinds since the fork: %v) and stayed idle for 3 s", i+1, firstReplaced, lowest, evs[eventsBefore:]) + c06Diag(storePath, rdPath, chain)
 				return
 			}
 		}
@@ -544,7 +576,7 @@ func c06Run(c c06Case) (res c06Result) {
 				idleSince = time.Now()
 			}
 			if time.Since(idleSince) > 3*time.Second {
-				res.verdict = "the chain stopped changing and the node is idle, but " + diff
+				res.verdict = "the chain stopped changing and the node is idle, but " + diff + c06Diag(storePath, rdPath, chain)
 				return
 			}
 		} else {
@@ -576,8 +608,6 @@ func c06Run(c c06Case) (res c06Result) {
 	}
 	return
 }
-
-const c06SigRace = "kind=schedule-dependent-nonconvergence-after-fork (detector removes tracked range after the driver re-tracked new-fork blocks)"
 
 func TestC06(t *testing.T) {
 	rec := ev.For("C06", c06Rule)
